@@ -41,7 +41,7 @@ def all_rules():
 def clients():
     cs = []
     for acct, inside, ident, host, ok in itertools.product((None, 'oper', 'oper:9', 'user:9'), (True, False), ('joe', '~joe', None), ('m', 'o', None), (True, False, 'timeout')):
-        claimed = ['claimed'] + (['~tilde'] if ident == '~joe' else [])
+        claimed = ['claimed'] + (['~tilde', None] if ident == '~joe' else [])      # None: hurried before any U line - there is no client-supplied name to upgrade to
         for cl in claimed:
             cs.append(dict(account=acct, addr='10.1.2.3' if inside else '10.2.2.3', ident=ident, host={'m': 'h.match.example', 'o': 'h.other.example', None: None}[host], ok=ok, claimed=cl))
     return cs
@@ -56,7 +56,8 @@ def client_events(c, cid=1, serial=1):
     if c['ident']:
         L.append('%d u %s' % (cid, c['ident']))
     L.append('%d n Nick' % cid)
-    L.append('%d U %s :Real Name' % (cid, c['claimed']))
+    if c['claimed'] is not None:
+        L.append('%d U %s :Real Name' % (cid, c['claimed']))
     if c['account']:
         L.append('%d P :-! %s secret' % (cid, c['account'].split(':')[0]))
     L.append('%d H' % cid)
@@ -80,7 +81,7 @@ def expect(table, c):
         attrs['ok_services'] = set(attrs['ok_services']) | {'login.svc'}
     cls, trust = proto.class_reference(table, attrs)
     upgrade = None
-    if cls is not None and trust and c['ident'] and c['ident'].startswith('~'):
+    if cls is not None and trust and c['ident'] and c['ident'].startswith('~') and c['claimed'] is not None:
         upgrade = c['claimed'][1:] if c['claimed'].startswith('~') else c['claimed']
     return cls, upgrade
 
@@ -151,7 +152,7 @@ def _table(tab):
             if gcls != wcls:
                 V.append(('C11.wrong-class', 'class %r assigned, the first matching rule in name order gives %r (line %r)' % (gcls, wcls, verdict[0]), lines))
             gup = [l.split()[4] for l in ups if len(l.split()) > 4]
-            if (wup is None and gup) or (wup is not None and gup != [wup]):
+            if (wup is None and ups) or (wup is not None and (gup != [wup] or len(ups) != 1)):
                 V.append(('C11.trust-username', 'user name upgrade lines %r, expected %r' % (ups, wup), lines))
             elif wup is not None and out.index(ups[0]) > out.index(verdict[0]):
                 V.append(('C11.trust-username', 'the user name upgrade came after the verdict: %r' % (out,), lines))
